@@ -228,6 +228,13 @@ func Forall(vars []Term, body Term, patterns ...Term) Term {
 		fmt.Fprintf(&b, "(%s %s)", v.S, v.Sort)
 	}
 	b.WriteString(") ")
+	var pats []Term
+	for _, p := range patterns {
+		if validPattern(p.S) && (patternHook == nil || patternHook(p.S)) {
+			pats = append(pats, p)
+		}
+	}
+	patterns = pats
 	if len(patterns) > 0 {
 		b.WriteString("(! ")
 		b.WriteString(body.S)
@@ -264,6 +271,7 @@ const prelude = `(set-option :produce-models true)
 (set-logic ALL)
 (declare-datatypes ((Slice 1)) ((par (T) ((mkslice (sarr (Array Int T)) (slen Int))))))
 (declare-datatypes ((Iface 0)) (((mkiface (itag Int) (iref Int)))))
+(declare-fun typeof (Int) Int)
 `
 
 func mangle(s string) string {
@@ -277,4 +285,18 @@ func mangle(s string) string {
 		}
 	}
 	return b.String()
+}
+
+// patternHook lets the VC generator veto patterns that mention defined names whose definitions
+// contain connectives (solvers expand define-fun macros inside patterns).
+var patternHook func(string) bool
+
+// validPattern: a trigger must be built from function applications only.
+func validPattern(s string) bool {
+	for _, bad := range []string{"(ite ", "(and ", "(or ", "(not ", "(=> ", "(= ", "(<= ", "(< ", "(>= ", "(> ", "(forall ", "(exists "} {
+		if strings.Contains(s, bad) {
+			return false
+		}
+	}
+	return strings.HasPrefix(s, "(")
 }
